@@ -9,3 +9,6 @@ const Enabled = false
 func Event(name string, kv ...any) {}
 
 func Yield(point string, key any) {}
+
+// PtrID marks a value that the sink must identify by pointer identity.
+type PtrID struct{ P any }
